@@ -4,7 +4,9 @@ import CssVerif.Model.StrCodec
 # C03 — the spelling the serializer writes (structure level)
 
 `canon : SSheet → SSheet` maps a spelled sheet (`Model/SheetSpec.lean`: an abstract sheet + one way of writing it) to
-the spelling that `CSSSerializer` (default preferences) gives to the DOM parsed from it.  `serialise s = render (canon s)`
+the spelling that `CSSSerializer` (default preferences, `resolveVariables = False` as in the oracle of this check: with
+the default the `@variables` rules are dropped and `var()` is replaced, which is lossy by design) gives to the DOM parsed
+from it.  `serialise s = render (canon s)`
 is the token list of `sheet.cssText` (tie: tools/harness/c03_canon.py compares it with the real tokenizer run on the real
 `cssText`, token by token).  Layout facts, each a line of `cssutils/serialize.py` (model of the text level:
 `Model/OutRules.lean`, property C06):
@@ -159,6 +161,22 @@ def canonPageBlock (lv : Nat) (b : SPageBlock) : SPageBlock :=
   let l := layItems ms.isEmpty lv plain
   { lead := [nl lv], items := asPageItems l.1 ++ ms, last := l.2 }
 
+/-- is the optional name of `@media` / `@import` written (an empty name is no name: `cssmediarule.py:117-130`) -/
+def nameWritten : SName → Bool
+  | some (_, n, _) => !n.isEmpty
+  | none => false
+
+/-- the name as STRING with double quotes, its comments each preceded by a blank, then `tail` -/
+def canonName (tail : Gap) : SName → SName
+  | some (_, n, g) => if n.isEmpty then none else some (.dq, n, gTrail g tail)
+  | none => none
+
+/-- the comments behind an empty name of `@import`: the name is not written, its comments are (behind what stands before
+it; `@media` drops them with the name) -/
+def emptyNameGap : SName → Gap
+  | some (_, n, g) => if n.isEmpty then g else []
+  | none => []
+
 def canonPageSel (s : SPageSel) : SPageSel :=
   { name := s.name, mid := s.mid, pseudo := s.pseudo, pseudoSp := [] }
 
@@ -176,8 +194,9 @@ def canonRule (lv : Nat) : SRule → SRule
   | .comment b => .comment b
   | .style sel blk => .style (canonSel sel) (canonBlock (lv + 1) blk)
   | .unknown t => .unknown t
-  | .media _ g1 mq g2 _ rules =>
-    .media [] (gLead g1) mq (gTrail g2 [.ws sp]) [nl (lv + 1)] (canonRules (lv + 1) true rules)
+  | .media _ g1 mq g2 name _ rules =>
+    .media [] (gLead g1) mq (gTrail g2 [.ws sp]) (canonName [.ws sp] name) [nl (lv + 1)]
+      (canonRules (lv + 1) true rules)
   | .fontface _ g1 blk => .fontface [] (gTrail g1 [.ws sp]) (canonBlock (lv + 1) blk)
   | .page _ g0 sel g1 blk =>
     .page [] (gLead g0) (canonPageSel sel) (if selEmpty sel then gTight g1 else gPage g1)
@@ -194,9 +213,36 @@ end
 def canonImp : SImp → SImp
   | .comment b => .comment b
   | .unknown t => .unknown t
-  | .import_ _ g1 href g2 mq =>
-    .import_ [] (gLead g1) (canonHref href) (gTrail g2 (if mq.isSome then [.ws sp] else []))
-      (mq.map fun p => (p.1, gTrail p.2 []))
+  | .import_ _ g1 href g2 mq name =>
+    .import_ [] (gLead g1) (canonHref href)
+      (gTrail (if mq.isSome then g2 else g2 ++ emptyNameGap name) (if mq.isSome || nameWritten name then [.ws sp] else []))
+      (mq.map fun p => (p.1, gTrail (p.2 ++ emptyNameGap name) (if nameWritten name then [.ws sp] else [])))
+      (canonName [] name)
+
+/-- `name: value` of `@variables` (`do_css_CSSVariablesDeclaration` `:902-934`): the name normalised, the comments behind
+the value kept.  Comments before the value and between the declarations are moved by the parser into the item sequence
+and written on lines of their own in an irregular layout: they are NOT modelled (left out here; the stream has none). -/
+def canonVarDecl (close : Option Ws) (d : SVarDecl) : SVarDecl :=
+  { name := d.name, nameSp := [], g1 := [], g2 := [.ws sp], value := d.value, g3 := gTrail d.g3 (closing close) }
+
+def layVarItems (lv : Nat) : List SVarDecl → List (SVarDecl × Gap) × Option SVarDecl
+  | [] => ([], none)
+  | [d] => ([], some (canonVarDecl (some (nl lv)) d))
+  | d :: e :: rest => ((canonVarDecl none d, [.ws (nl lv)]) :: (layVarItems lv (e :: rest)).1, (layVarItems lv (e :: rest)).2)
+
+def varDecls (b : SVarBlock) : List SVarDecl := b.items.map (·.1) ++ b.last.toList
+
+/-- the block of `@variables` at level `lv`.  A name declared twice is written once by the implementation (the DOM is a
+mapping: the later value in the place of the first); this is NOT modelled (every declaration is written; the stream has
+distinct names). -/
+def canonVarBlock (lv : Nat) (b : SVarBlock) : SVarBlock :=
+  { lead := [.ws (nl lv)], items := (layVarItems lv (varDecls b)).1, last := (layVarItems lv (varDecls b)).2 }
+
+/-- `do_CSSVariablesRule` (`:445-468`) with `resolveVariables = False` -/
+def canonVar : SVar → SVar
+  | .comment b => .comment b
+  | .unknown t => .unknown t
+  | .variables _ g0 blk => .variables [] (gTrail g0 [.ws sp]) (canonVarBlock 1 blk)
 
 def canonNs : SNs → SNs
   | .comment b => .comment b
@@ -215,12 +261,14 @@ def rulesEmpty : SRules → Bool
 
 /-- `do_CSSStyleSheet` for a sheet all of whose rules are written (`prune s = s`) -/
 def canonV (s : SSheet) : SSheet :=
-  let moreN := !s.namespaces.isEmpty || !rulesEmpty s.rules
+  let moreV := !s.variables.isEmpty || !rulesEmpty s.rules
+  let moreN := !s.namespaces.isEmpty || moreV
   let more := !s.imports.isEmpty || moreN
   { charset := s.charset.map fun c => (.dq, c.2),
     lead := if s.charset.isSome && more then [nl 0] else [],
     imports := layStmts canonImp moreN s.imports,
-    namespaces := layStmts canonNs (!rulesEmpty s.rules) s.namespaces,
+    namespaces := layStmts canonNs moreV s.namespaces,
+    variables := layStmts canonVar (!rulesEmpty s.rules) s.variables,
     rules := canonRules 0 false s.rules }
 
 /-! ## rules that serialise to nothing (`keepEmptyRules = False`, the default)
@@ -252,10 +300,10 @@ def pruneRule : SRule → Option SRule
   | .comment b => some (.comment b)
   | .style sel blk => if blockEmpty blk then none else some (.style sel blk)
   | .unknown t => some (.unknown t)
-  | .media kw g1 mq g2 lead rules =>
+  | .media kw g1 mq g2 name lead rules =>
     match pruneRules rules with
     | .nil => none
-    | .cons r w rest => some (.media kw g1 mq g2 lead (.cons r w rest))
+    | .cons r w rest => some (.media kw g1 mq g2 name lead (.cons r w rest))
   | .fontface kw g1 blk => if blockEmpty blk then none else some (.fontface kw g1 blk)
   | .page kw g0 sel g1 blk =>
     if pageEmpty (prunePageBlock blk) then none else some (.page kw g0 sel g1 (prunePageBlock blk))
@@ -267,8 +315,15 @@ def pruneRules : SRules → SRules
     | some r' => .cons r' w (pruneRules rest)
 end
 
+/-- a `@variables` rule without a declaration is not written (`do_CSSVariablesRule`: empty `variablesText`) -/
+def varWritten : SVar → Bool
+  | .variables _ _ blk => !(varDecls blk).isEmpty
+  | _ => true
+
+def pruneVars (l : List (SVar × WGap)) : List (SVar × WGap) := l.filter fun p => varWritten p.1
+
 /-- the sheet without the rules that are not written -/
-def prune (s : SSheet) : SSheet := { s with rules := pruneRules s.rules }
+def prune (s : SSheet) : SSheet := { s with variables := pruneVars s.variables, rules := pruneRules s.rules }
 
 /-- `do_CSSStyleSheet`: the spelling the serializer gives to the sheet parsed from `s` -/
 def canon (s : SSheet) : SSheet := canonV (prune s)
